@@ -34,6 +34,7 @@ namespace details {
         execute_write_request       = 0x18,
         execute_write_response      = 0x19,
         write_command               = 0x52,
+        signed_write_command        = 0xD2,
         notification                = 0x1B,
         indication                  = 0x1D,
         confirmation                = 0x1E
